@@ -8,6 +8,11 @@ CHECKS = {
     note="Lean kernel + propext/Classical.choice/Quot.sound; the hand-written model murmurPy is tied by differential runs only; strings < 2^32 code points; CPython int semantics.",
     technique="Lean 4 proof (refinement of unbounded-int arithmetic to BitVec 32 by induction over blocks) + model/implementation correspondence",
     ref="§6 C14"),
+ "C02": dict(
+    text="Lean theorems C02_parse_storeCmd / C02_parse_encode_store / _fetch / _delete_many / _arith / _touch / _flush prove that for every legal argument tuple (any key accepted by check_key with non-empty wire form, ANY data bytes of any length, any integers in range) the bytes built exactly as the client builds them are read by an independent strict parser as exactly the intended request(s) with nothing left over; C02_illegal_key_sends_nothing, C02_non_integer_rejected, C02_bad_cas_rejected cover the rejections; C02_empty_key_counterexample proves the open finding. Tied to /repo by parsing the bytes the real client passes to sendall() with the Lean strict parser and comparing with the intent computed from the arguments, plus model/implementation comparison of sent bytes.",
+    note="Lean kernel + standard axioms; strict parser and intent are my reading of protocol.txt; encoding assumed ASCII-compatible; bool/negative flags outside the quantifier; two open findings (empty key — pinned by a repo test; gat(expire=None)).",
+    technique="Lean 4 proof (parse∘encode round trip by induction over the command list) + strict-parser monitor on real sendall bytes",
+    ref="§6 C02"),
  "C03": dict(
     text="Lean theorems C03_readline_flat / C03_readvalue_flat / C03_readsegment_flat prove that each incremental reader, for every buffer and every fault-free delivery schedule of any length, returns exactly the flat split of the concatenated stream and leaves exactly the remaining stream (hence C03_*_seg_indep and C03_eintr_irrelevant); counterexamples for the pre-fix _readsegment are proved. Tied to /repo by random-schedule differential runs of the three real readers against the model and the flat spec, and by a metamorphic run of every public operation over a scenario corpus x all/1-/2-/3-cut segmentations x EINTR.",
     note="Lean kernel + standard axioms; RECV_SIZE not modelled (a short recv is just another chunking); call-level independence is established by the reader theorems plus the metamorphic run on the real exchange loops; server sends non-negative sizes.",
